@@ -341,6 +341,19 @@ func Published(kind, name string) []string {
 	return out
 }
 
+// Orient64 returns x itself natively. Symbolically it returns a sign-canonical term c and a (concrete) flag such
+// that x is c or -c, and Orient64(-x) returns the same c with the opposite flag: an odd function computed on c and
+// re-signed by the flag gives syntactically opposite results for x and -x.
+func Orient64(x int64) (int64, bool) { return x, false }
+
+// Abs64 is |x| (symbolically a sign-canonical term: Abs64(x) and Abs64(-x) are identical).
+func Abs64(x int64) int64 {
+	if x < 0 {
+		return -x
+	}
+	return x
+}
+
 // DivFloor is floor(a/b) for b > 0 over mathematical integers.
 func DivFloor(a, b int64) int64 {
 	q := a / b
